@@ -41,6 +41,53 @@ theorem copy_independent (h : Heap.H) (hs : Heap.Sep h) (op : Heap.Op) (i j : Na
     · intro k hk; rw [hact] at hk; cases hk; rw [hown]; intro he; cases he; exact hij rfl
     · intro t k v he; rw [he] at hact; simp [Heap.Op.actor] at hact
 
+/-- **independence for every continuation**: after any sequence of operations none of which acts on
+    instance `i` — construction, updates, copies, component instantiation on *other* instances
+    (the clone among them), caller-side dict mutation, class-level defaults — every dict slot of `i`
+    still points to the same cell and that cell holds what it held.  `i` is arbitrary, so this is both
+    "operations on the clone do not affect the original" and the converse. -/
+theorem independent_run (ops : List Heap.Op) : ∀ (h : Heap.H), Heap.Sep h → ∀ (i p a : Nat),
+    (∀ op ∈ ops, op.actor ≠ some i) → h.slot i p = some a →
+    (Heap.run true h ops).slot i p = some a ∧ (Heap.run true h ops).cells a = h.cells a := by
+  induction ops with
+  | nil => intro h _ i p a _ hsl; exact ⟨hsl, rfl⟩
+  | cons op ops ih =>
+    intro h hs i p a hact hsl
+    have hop : op.actor ≠ some i := hact op (List.mem_cons_self ..)
+    obtain ⟨hlt, hown⟩ := hs i p a hsl
+    have hstep : (Heap.step true h op).slot i p = some a ∧ (Heap.step true h op).cells a = h.cells a := by
+      obtain ⟨hc, hslot⟩ := Heap.bystander_unchanged h op hs
+      refine ⟨?_, ?_⟩
+      · rw [hslot i p (fun k hk he => hop (by rw [hk, he]))]; exact hsl
+      · by_cases hw : ∃ k v, op = .callerWrite a k v
+        · obtain ⟨k, v, rfl⟩ := hw
+          simp [Heap.step, hown]
+        · apply hc a hlt
+          · intro k hk he; rw [hown] at he; cases he; exact hop hk
+          · intro t k v he hat; subst hat; exact hw ⟨k, v, he⟩
+    obtain ⟨h1, h2⟩ := ih _ (Heap.sep_step h op hs) i p a
+      (fun o ho => hact o (List.mem_cons_of_mem _ ho)) hstep.1
+    simp only [Heap.run, List.foldl_cons] at h1 h2 ⊢
+    exact ⟨h1, by rw [h2, hstep.2]⟩
+
+/-- clone then work on the clone, for any amount of work: the original's dicts are what they were
+    before the clone was taken -/
+theorem clone_then_any_ops (h : Heap.H) (hs : Heap.Sep h) (i j : Nat) (hij : i ≠ j) (ps : List Nat)
+    (ops : List Heap.Op) (hops : ∀ op ∈ ops, op.actor = some j) (p a : Nat) (hsl : h.slot i p = some a) :
+    (Heap.run true h (.copy i j ps :: ops)).slot i p = some a ∧
+    (Heap.run true h (.copy i j ps :: ops)).cells a = h.cells a := by
+  apply independent_run _ h hs i p a _ hsl
+  intro op ho he
+  rcases List.mem_cons.mp ho with rfl | ho
+  · simp [Heap.Op.actor] at he; exact hij he.symm
+  · rw [hops op ho] at he; cases he; exact hij rfl
+
+/-- the premises are satisfiable: a constructed instance, cloned, clone updated twice -/
+example : let h0 := Heap.run true Heap.H.empty [.callerNew [(1, 2)], .construct 0 0 (some 0)]
+    h0.slot 0 0 = some 1 ∧
+    (Heap.run true h0 [.copy 0 1 [0], .callerNew [(1, 5)], .update 1 0 2]).cells 1 = h0.cells 1 := by
+  decide
+
 /-- separation still holds after copying, so the argument repeats for any continuation -/
 theorem sep_after_copy (h : Heap.H) (hs : Heap.Sep h) (i j : Nat) (ps : List Nat) : Heap.Sep (Heap.step true h (.copy i j ps)) :=
   Heap.sep_step h _ hs
